@@ -197,15 +197,17 @@ struct Filter {   // replay: restrict to one case
   bool on = false;
   unsigned v = 0;
   int j = -1;
+  bool override = false;
   string perm, gaps;
 };
 
 struct Ctx {
   bool log = false;
   bool violated = false;
-  string baseCase;
+  bool judging = true;   // replay: the steps that precede the case in the exploration order are executed, not judged
 };
 static void report(Ctx* c, const string& sig, const string& detail, const string& rcase) {
+  if (!c->judging) return;
   c->violated = true;
   if (c->log) printf("VIOLATES %s: %s\n", sig.c_str(), detail.c_str());
   else R.violation(sig, detail + " [" + rcase + "]", rcase);
@@ -281,8 +283,29 @@ static void runPlain(Ctx* c, size_t si, const RefDef& d, Loaded& L, const Filter
     Message* m = L.msgs[j];
     unsigned own = d.dsts[j];
     unsigned dst = own == 0xAA ? 0x08 : own;
+    // a destination passed to prepareMaster replaces the definition's own one (header only; such a
+    // telegram is not expected to be identified back)
+    if (own != 0xAA) {
+      c->judging = !flt.on || flt.override;
+      unsigned other = own == 0xfe ? 0x15 : isMaster((symbol_t)own) ? 0x30 : 0x15;
+      unsigned v = 0;
+      Values val = makeValues(d, v);
+      string cs = caseOf(si, d, v) + ";j=" + std::to_string(j) + ";x=1";
+      std::istringstream in(val.input);
+      MasterSymbolString ms;
+      g_now += 1;
+      result_t r = m->prepareMaster(0, (symbol_t)SRC, (symbol_t)other, UI_FIELD_SEPARATOR, &in, &ms);
+      R.transitions++; R.tracesValidated++; R.evaluations++;
+      if (c->log) printf(" message %s/%s with destination %02x given, input \"%s\"\n  prepareMaster -> %s %s\n", m->getCircuit().c_str(), m->getName().c_str(), other, val.input.c_str(), rc(r).c_str(), c09::toHex(msBytes(ms)).c_str());
+      if (r != RESULT_OK) report(c, string("C09/prepare-failed/") + shapeClass(*d.shape) + "/given-destination/" + sane(rc(r)), "prepareMaster with a given destination returned " + rc(r), cs);
+      else headerCheck(c, d, ms, other, cs);
+    }
+    if (flt.on && flt.override) continue;
+    // the value choices are applied one after the other to the same message (its caches carry over), so
+    // a replay executes the choices before the case as well
     for (unsigned v = 0; v < (1u << n); v++) {
-      if (flt.on && flt.v != v) continue;
+      if (flt.on && v > flt.v) break;
+      c->judging = !flt.on || v == flt.v;
       Values val = makeValues(d, v);
       string cs = caseOf(si, d, v) + ";j=" + std::to_string(j);
       R.evaluations++;
@@ -317,6 +340,7 @@ static void runPlain(Ctx* c, size_t si, const RefDef& d, Loaded& L, const Filter
       decodeCheck(c, d, m, val, "decode", cs);
     }
   }
+  c->judging = true;
 }
 
 // reference telegrams of the parts of a chained message
@@ -342,18 +366,18 @@ static Parts refParts(const RefDef& d, const Values& val) {
 static void runChained(Ctx* c, size_t si, const RefDef& d, Loaded& A, const Filter& flt) {
   size_t n = d.fields.size(), P = d.ids.size();
   Message* m = A.msgs[0];
-  Loaded B = load(d);   // receives the parts passively
-  if (B.result != RESULT_OK || B.msgs.size() != 1) return;
-  Message* mb = B.msgs[0];
   vector<int> perm(P);
+  bool wantLog = c->log;
   for (unsigned v = 0; v < (1u << n); v++) {
-    if (flt.on && flt.v != v) continue;
+    if (flt.on && v > flt.v) break;
+    bool target = !flt.on || v == flt.v;
     Values val = makeValues(d, v), val2 = makeValues(d, ~v & ((1u << n) - 1));
     Parts rp = refParts(d, val), rp2 = refParts(d, val2);
     string cs = caseOf(si, d, v);
     R.evaluations++;
-    // ---- build every part
-    if (!flt.on || flt.perm.empty()) {
+    // ---- build every part (on the same message for all value choices, as a client would)
+    c->judging = target && (!flt.on || flt.perm.empty());
+    {
       Bytes joined;
       bool allOk = true;
       for (size_t i = 0; i < P; i++) {
@@ -393,19 +417,29 @@ static void runChained(Ctx* c, size_t si, const RefDef& d, Loaded& A, const Filt
                           "data of the parts in order " + c09::toHex(joined) + " != encoded value " + c09::toHex(val.master), cs);
       }
     }
-    // ---- receive the parts in every order with every gap pattern, then a second round with other values
+    if (!target || (flt.on && flt.perm.empty())) continue;
+    // ---- a freshly loaded map receives the parts in every order with every gap pattern, each followed by
+    //      a second round with other values; the histories of one value choice run one after the other on
+    //      the same message (a replay executes the histories before the case as well, unjudged)
+    Loaded B = load(d);
+    if (B.result != RESULT_OK || B.msgs.size() != 1) return;
+    Message* mb = B.msgs[0];
+    unsigned earlier = 0;
+    bool done = false;
     for (size_t i = 0; i < P; i++) perm[i] = (int)i;
     do {
       string ps; for (int x : perm) ps += (char)('0' + x);
-      if (flt.on && !flt.perm.empty() && flt.perm != ps) continue;
       unsigned ng = 1; for (size_t i = 1; i < P; i++) ng *= 3;
-      for (unsigned gi = 0; gi < ng; gi++) {
+      for (unsigned gi = 0; gi < ng && !done; gi++) {
         string gs; bool small = true;
         vector<time_t> gaps;
         unsigned x = gi;
         for (size_t i = 1; i < P; i++) { unsigned g = x % 3; x /= 3; gs += (char)('0' + g); gaps.push_back(g == 0 ? 0 : g == 1 ? 1 : (time_t)(16 * P)); if (g == 2) small = false; }
-        if (flt.on && !flt.perm.empty() && flt.gaps != gs) continue;
-        if (flt.on && flt.perm.empty()) continue;
+        bool isTarget = !flt.on || (flt.perm == ps && flt.gaps == gs);
+        c->judging = isTarget;
+        c->log = wantLog && isTarget;
+        if (flt.on && !isTarget) earlier++;
+        if (flt.on && isTarget && wantLog) printf(" (%u earlier arrival histories of this value choice were replayed on the same message without log)\n", earlier);
         string hs = cs + ";o=" + ps + ";g=" + gs;
         g_now += 1000000;
         for (size_t k = 0; k < P; k++) {
@@ -431,9 +465,13 @@ static void runChained(Ctx* c, size_t si, const RefDef& d, Loaded& A, const Filt
           if (c->log) printf(" round 2 part %u arrives: storeLastData(%s, %s) -> %s\n", (unsigned)k, c09::toHex(rp2.masters[k]).c_str(), c09::toHex(rp2.slaves[k]).c_str(), rc(r).c_str());
         }
         decodeCheck(c, d, mb, val2, "chain-rejoin", hs);
+        if (flt.on && isTarget) done = true;
       }
-    } while (std::next_permutation(perm.begin(), perm.end()));
+    } while (!done && std::next_permutation(perm.begin(), perm.end()));
+    c->log = wantLog;
   }
+  c->judging = true;
+  c->log = wantLog;
 }
 
 // returns: 0 not applicable, 1 rejected by the loader, 2 explored
@@ -482,6 +520,7 @@ static int replay(const string& cstr) {
   Filter f; f.on = true; f.v = (unsigned)atoi(m["v"].c_str());
   if (m.count("j")) f.j = atoi(m["j"].c_str());
   f.perm = m["o"]; f.gaps = m["g"];
+  f.override = m["x"] == "1";
   Ctx c; c.log = true;
   int r = runDef(&c, si, c09::shapes()[si], lay, f);
   if (r != 2) printf("definition not explored (%s)\n", r == 0 ? "shape not applicable to this layout" : "rejected by the loader");
